@@ -527,7 +527,11 @@ def np_call(ev, name, args, kwargs, node):
                 kw = [("dtype", Const("int" if last in ("int", "int64", "intp", "int32", "i8") else "bool" if last in ("bool", "bool_") else "other"))]
         return App(name, (as_v(ev, arg(0, "shape")),), kw)
     if name == "full":
-        return App("full", (as_v(ev, arg(0, "shape")), as_v(ev, arg(1, "fill_value"))))
+        dt = kwargs.get("dtype")
+        kw = []
+        if dt is not None and not (isinstance(dt, Const) and dt.value is None):
+            kw = [("dtype", as_v(ev, dt) if isinstance(as_v(ev, dt), V) else Const("other"))]
+        return App("full", (as_v(ev, arg(0, "shape")), as_v(ev, arg(1, "fill_value"))), kw)
     if name in ("zeros_like", "empty_like", "ones_like"):
         kw = []
         if "shape" in kwargs:
